@@ -193,6 +193,30 @@ pub mod q {
     ctor!(ctor_len65, 65);
     ctor!(ctor_len128, 128);
 
+    /// Growth by `resize` of a vector created by `with_capacity` (backend with
+    /// spare *capacity* but no words yet) and of one grown by `push`.
+    #[kani::proof]
+    #[kani::unwind(70)]
+    pub fn with_capacity_resize() {
+        let b: bool = kani::any();
+        let mut v = BitVec::with_capacity(256);
+        v.resize(5, b);
+        assert_eq!(v.len(), 5);
+        let i: usize = kani::any();
+        kani::assume(i < 5);
+        assert_eq!(v.get(i), b);
+        assert_eq!(v.count_ones(), if b { 5 } else { 0 });
+        let mut w = BitVec::with_capacity(192);
+        w.push(!b);
+        w.resize(66, b);
+        assert_eq!(w.get(0), !b);
+        assert_eq!(w.get(65), b);
+        let r: &[usize] = w.as_ref();
+        assert!(r.len() * 64 >= 66);
+        kani::cover!(true);
+        std::mem::forget((v, w));
+    }
+
     /// Zero-length constructors and their iterators.
     #[kani::proof]
     #[kani::unwind(4)]
